@@ -657,6 +657,7 @@ package astits
 //@   requires itOK(i) && i.offset < offsetEnd && offsetEnd <= i.offset + 255
 //@   modifies i.offset
 //@   loop 0 invariant itOK(i)
+//@   loop 0 decreases [C03] len(i.bs) + 0x100000 - i.offset
 //@   opt sweep:C03
 
 //@ func newDescriptorDataStreamAlignment
@@ -673,6 +674,7 @@ package astits
 //@   requires itOK(i)
 //@   modifies i.offset
 //@   loop 0 invariant itOK(i) && old(i.offset) <= i.offset
+//@   loop 0 decreases [C03] len(i.bs) + 0x100000 - i.offset
 //@   opt sweep:C03
 
 //@ func newDescriptorExtendedEventItem
@@ -680,6 +682,7 @@ package astits
 //@   modifies i.offset
 //@   opt sweep:C03
 //@   ensures [C03] bound: err == nil ==> old(i.offset) <= i.offset && i.offset <= len(i.bs) + 0x10000
+//@   ensures [C03] adv: err == nil ==> i.offset > old(i.offset)
 
 //@ extern newDescriptorExtension
 //@   requires itOK(i)
@@ -699,6 +702,7 @@ package astits
 //@   requires itOK(i) && i.offset < offsetEnd && offsetEnd <= i.offset + 255
 //@   modifies i.offset
 //@   loop 0 invariant itOK(i) && old(i.offset) <= i.offset
+//@   loop 0 decreases [C03] len(i.bs) + 0x100000 - i.offset
 //@   opt sweep:C03
 
 //@ func newDescriptorMaximumBitrate
@@ -715,6 +719,7 @@ package astits
 //@   requires itOK(i) && i.offset < offsetEnd && offsetEnd <= i.offset + 255
 //@   modifies i.offset
 //@   loop 0 invariant itOK(i)
+//@   loop 0 decreases [C03] len(i.bs) + 0x100000 - i.offset
 //@   opt sweep:C03
 
 //@ func newDescriptorPrivateDataIndicator
@@ -751,12 +756,14 @@ package astits
 //@   requires itOK(i) && i.offset < offsetEnd && offsetEnd <= i.offset + 255
 //@   modifies i.offset
 //@   loop 0 invariant itOK(i)
+//@   loop 0 decreases [C03] len(i.bs) + 0x100000 - i.offset
 //@   opt sweep:C03
 
 //@ func newDescriptorTeletext
 //@   requires itOK(i) && i.offset < offsetEnd && offsetEnd <= i.offset + 255
 //@   modifies i.offset
 //@   loop 0 invariant itOK(i)
+//@   loop 0 decreases [C03] len(i.bs) + 0x100000 - i.offset
 //@   opt sweep:C03
 
 //@ func newDescriptorUnknown
@@ -768,8 +775,11 @@ package astits
 //@   requires itOK(i) && i.offset < offsetEnd && offsetEnd <= i.offset + 255
 //@   modifies i.offset
 //@   loop 0 invariant itOK(i)
+//@   loop 0 decreases [C03] len(i.bs) + 0x100000 - i.offset
 //@   loop 1 invariant itOK(i)
+//@   loop 1 decreases [C03] len(i.bs) + 0x100000 - i.offset
 //@   loop 2 invariant itOK(i)
+//@   loop 2 decreases [C03] len(i.bs) + 0x100000 - i.offset
 //@   opt sweep:C03
 
 //@ func parseCRC32
@@ -800,11 +810,13 @@ package astits
 //@   opt sweep:C03
 //@   ensures [C03] bound: err == nil ==> old(i.offset) <= i.offset && i.offset <= len(i.bs) + 0x10000
 //@   loop 0 assert [C14,C13] stride: i.offset == pre(i.offset) + 2 + int(i.bs[pre(i.offset) + 1])
+//@   loop 0 decreases [C03] len(i.bs) + 0x20000 - i.offset
 
 //@ func parseEITSection
 //@   requires itOK(i)
 //@   modifies i.offset
 //@   loop 0 invariant itOK(i) && old(i.offset) <= i.offset && i.offset <= len(i.bs) + 0x10000
+//@   loop 0 decreases [C03] len(i.bs) + 0x100000 - i.offset
 //@   opt sweep:C03
 //@   ensures [C03] bound: err == nil ==> old(i.offset) <= i.offset && i.offset <= len(i.bs) + 0x10000
 
@@ -812,6 +824,7 @@ package astits
 //@   requires itOK(i)
 //@   modifies i.offset
 //@   loop 0 invariant itOK(i) && old(i.offset) <= i.offset && i.offset <= len(i.bs) + 0x10000
+//@   loop 0 decreases [C03] len(i.bs) + 0x100000 - i.offset
 //@   opt sweep:C03
 //@   ensures [C03] bound: err == nil ==> old(i.offset) <= i.offset && i.offset <= len(i.bs) + 0x10000
 
@@ -819,6 +832,7 @@ package astits
 //@   requires itOK(i)
 //@   modifies i.offset
 //@   loop 0 invariant itOK(i) && old(i.offset) <= i.offset
+//@   loop 0 decreases [C03] len(i.bs) + 0x100000 - i.offset
 //@   opt sweep:C03
 //@   ensures [C03] bound: err == nil ==> old(i.offset) <= i.offset && i.offset <= len(i.bs) + 0x100000000
 
@@ -826,6 +840,7 @@ package astits
 //@   requires itOK(i)
 //@   modifies i.offset
 //@   loop 0 invariant itOK(i) && old(i.offset) <= i.offset && i.offset <= len(i.bs) + 0x10000
+//@   loop 0 decreases [C03] len(i.bs) + 0x100000 - i.offset
 //@   opt sweep:C03
 //@   ensures [C03] bound: err == nil ==> old(i.offset) <= i.offset && i.offset <= len(i.bs) + 0x10000
 
@@ -833,6 +848,7 @@ package astits
 //@   requires itOK(i)
 //@   modifies i.offset
 //@   loop 0 invariant itOK(i)
+//@   loop 0 decreases [C03] len(i.bs) - i.offset
 //@   opt sweep:C03
 
 //@ func parsePSISection
@@ -894,6 +910,7 @@ package astits
 //@   requires itOK(i)
 //@   modifies i.offset
 //@   loop 0 invariant itOK(i) && old(i.offset) <= i.offset && i.offset <= len(i.bs) + 0x10000
+//@   loop 0 decreases [C03] len(i.bs) + 0x100000 - i.offset
 //@   opt sweep:C03
 //@   ensures [C03] bound: err == nil ==> old(i.offset) <= i.offset && i.offset <= len(i.bs) + 0x10000
 
@@ -985,6 +1002,7 @@ package astits
 //@   loop 0 invariant [C03,C02] sum: rangeindex == iter - 1 && iter <= len(ps) && 0 <= l && l <= iter * 0x10000
 //@   loop 1 invariant [C03,C02] cp: rangeindex == iter - 1 && iter <= len(ps) && 0 <= o && o <= len(payload.s) && payload != nil && len(payload.s) == l && len(payload.s) <= cap(payload.s) && allocated(payload.s) && 0 <= l && l < 0x100000000
 //@   loop 2 invariant [C03,C02] it: itOK(i) && len(i.bs) == l && 0 <= l && l < 0x100000000
+//@   loop 2 decreases [C03] len(i.bs) - i.offset
 //@   at return#last assert [C02] exactfit: i.offset == len(i.bs) ==> result
 //@   at return#last assert [C02] overrun: i.offset > len(i.bs) ==> !result
 
@@ -1523,3 +1541,37 @@ package astits
 //@   ensures [C18] surfaced: rdFail(dmx.r) != old(rdFail(dmx.r)) ==> err != nil
 //@   ensures [C03] eos: err != nil && retof("(context.Context).Err", 0) == nil && rdEnded(dmx.r) != 0 && rdPos(dmx.r) == old(rdPos(dmx.r)) && rdFail(dmx.r) == old(rdFail(dmx.r)) ==> err == ErrNoMorePackets
 //@   ensures [C19,C08] packet: err == nil ==> p != nil
+
+// ---------------------------------------------------------------------------
+// Stream list maintenance (C17: the PMT is regenerated after every change of the stream list)
+
+//@ func (*Muxer).SetPCRPID
+//@   requires m != nil
+//@   modifies m.pmtUpdated, all(m.pmt)
+//@   ensures [C17] dirty: m.pmt.PCRPID == pid && m.pmtUpdated
+
+// AddElementaryStream: a PID already in the list is refused and nothing changes; otherwise the stream is appended,
+// gets a context with a fresh continuity counter, and the PMT is marked for regeneration. A PID of 0 is replaced by
+// the next automatic one.
+//@ func (*Muxer).AddElementaryStream
+//@   opt noframe
+//@   opt noloopframe
+//@   requires m != nil && m.esContexts != nil && 0 <= len(m.pmt.ElementaryStreams) && len(m.pmt.ElementaryStreams) <= cap(m.pmt.ElementaryStreams) && cap(m.pmt.ElementaryStreams) < 0x100000000 && allocated(m.pmt.ElementaryStreams) && forall(k, 0, len(m.pmt.ElementaryStreams), m.pmt.ElementaryStreams[k] != nil)
+//@   let pid0 = old(es.ElementaryPID)
+//@   loop 0 invariant [C17] scan: rangeindex == iter - 1 && iter <= len(m.pmt.ElementaryStreams) && forall(k, 0, iter, m.pmt.ElementaryStreams[k].ElementaryPID != pid0)
+//@   ensures [C17] dup: pid0 != 0 && exists(k, 0, old(len(m.pmt.ElementaryStreams)), old(m.pmt.ElementaryStreams[k].ElementaryPID) == pid0) ==> result == ErrPIDAlreadyExists && len(m.pmt.ElementaryStreams) == old(len(m.pmt.ElementaryStreams)) && m.pmtUpdated == old(m.pmtUpdated) && m.nextPID == old(m.nextPID)
+//@   ensures [C17] added: result == nil ==> m.pmtUpdated && len(m.pmt.ElementaryStreams) == old(len(m.pmt.ElementaryStreams)) + 1
+//@   ensures [C17] ctx: result == nil ==> has(m.esContexts, u32(ite(pid0 == 0, old(m.nextPID), pid0))) && m.esContexts[u32(ite(pid0 == 0, old(m.nextPID), pid0))] != nil && m.esContexts[u32(ite(pid0 == 0, old(m.nextPID), pid0))].cc.value == 16 && m.esContexts[u32(ite(pid0 == 0, old(m.nextPID), pid0))].cc.wrapAt == 15
+//@   ensures [C17] auto: result == nil && pid0 == 0 ==> m.nextPID == old(m.nextPID) + 1
+//@   ensures [C17] explicit: pid0 != 0 ==> m.nextPID == old(m.nextPID)
+
+// RemoveElementaryStream: an unknown PID is refused and nothing changes; otherwise the list shrinks by one, the
+// context is gone (WriteData then answers ErrPIDNotFound) and the PMT is marked for regeneration.
+//@ func (*Muxer).RemoveElementaryStream
+//@   opt noframe
+//@   opt noloopframe
+//@   requires m != nil && m.esContexts != nil && 0 <= len(m.pmt.ElementaryStreams) && len(m.pmt.ElementaryStreams) <= cap(m.pmt.ElementaryStreams) && cap(m.pmt.ElementaryStreams) < 0x100000000 && allocated(m.pmt.ElementaryStreams) && forall(k, 0, len(m.pmt.ElementaryStreams), m.pmt.ElementaryStreams[k] != nil)
+//@   loop 0 invariant [C17] scan: rangeindex == iter - 1 && iter <= len(m.pmt.ElementaryStreams) && foundIdx == -1 && forall(k, 0, iter, m.pmt.ElementaryStreams[k].ElementaryPID != pid)
+//@   ensures [C17] unknown: forall(k, 0, old(len(m.pmt.ElementaryStreams)), old(m.pmt.ElementaryStreams[k].ElementaryPID) != pid) ==> result == ErrPIDNotFound && len(m.pmt.ElementaryStreams) == old(len(m.pmt.ElementaryStreams)) && m.pmtUpdated == old(m.pmtUpdated)
+//@   ensures [C17] removed: result == nil ==> m.pmtUpdated && len(m.pmt.ElementaryStreams) == old(len(m.pmt.ElementaryStreams)) - 1 && !has(m.esContexts, u32(pid))
+//@   ensures [C17] either: result == nil || result == ErrPIDNotFound
